@@ -67,6 +67,7 @@ PROPS.update({
     },
     "C07": {
         "level": "exploration",
+        "real_binary_smoke": True,
         "parts": [{"engine": "integ", "profile": "c07", "weight": 2}, {"engine": "cli", "profile": "cli", "weight": 1}],
         "rule": "indices 0..1535: every exit status 0..255 at each of 3 command positions, with and without allow_failure, directly or as a stage; beyond: random C06-style worlds with more failures. Oracle: Task.Errored/ExitCode/Skipped, error returned by Run/Schedule and stage statuses == model. CLI part: generated configuration file + argv of 1..4 targets (tasks and pipelines in any order, root action or `run`, optional `-- args` containing a task name) through the in-process command line: targets execute in argv order without overlap, nothing of a later target starts after the first failing one, error returned iff a target failed, unrequested tasks never run. distinct = canonical event-log hash; non-trivial = >=2 processes alive together or >=1 non-zero exit",
         "assumptions": _INTEG_ASSUME + ["CLI part: entered at makeApp().Run(argv) in-process; main()'s error -> exit status 1 mapping (5 lines) is not executed"],
